@@ -84,7 +84,10 @@ var c15Faults = []c15Fault{
 
 // containers put the failing tag inside a body that spans lines; pre/post
 // are the lines before and after the tag's own line.
-var c15Containers = []struct{ name, pre, post string; runtimeOnly bool }{
+var c15Containers = []struct {
+	name, pre, post string
+	runtimeOnly     bool
+}{
 	{"top", "", "", false},
 	{"if", "<%= if (true) { %>\n  t\n", "\n<% } %>\n", false},
 	{"else", "<%= if (false) { %>\n  t\n<% } else { %>\n", "\n<% } %>\n", false},
@@ -223,9 +226,9 @@ func c15Run(b *core.B) {
 
 func init() {
 	core.Register(&core.Prop{
-		ID:    "C15",
-		Level: "exploration",
-		Rule: fmt.Sprintf("templates = prefix lines + one failing single-line tag + suffix lines; %d fault kinds (12 runtime: unknown identifier, failing helper, type error, index out of range, division by zero, missing member, ...; 15 syntax: unclosed paren, no prefix function, bad let/if/for, missing ':', illegal character, break outside loop, over-long integer, malformed float, ...) x %d containers (top level, inside if/else/for/fn/helper/contentFor bodies spanning lines, and after an executed block/loop/helper block/function call/partial) x prefix lines drawn from %d kinds (text, CRLF, single- and multi-line tags, strings and back-quoted strings with newlines, multi-line comments, # comments, multi-line blocks); every (fault, container, prefix kind) enumerated, longer prefixes random. Oracle 1: the error starts with 'line N:' for the generator-counted N. Oracle 2 (metamorphic): for k in {1,2,7,100} and units LF / 'x'+LF, rendering unit*k + T gives the same error with every line-start 'line M:' increased by k. Non-trivial = a template that produced an error.", len(c15Faults), len(c15Containers), len(c15Benign)),
+		ID:      "C15",
+		Level:   "exploration",
+		Rule:    fmt.Sprintf("templates = prefix lines + one failing single-line tag + suffix lines; %d fault kinds (12 runtime: unknown identifier, failing helper, type error, index out of range, division by zero, missing member, ...; 15 syntax: unclosed paren, no prefix function, bad let/if/for, missing ':', illegal character, break outside loop, over-long integer, malformed float, ...) x %d containers (top level, inside if/else/for/fn/helper/contentFor bodies spanning lines, and after an executed block/loop/helper block/function call/partial) x prefix lines drawn from %d kinds (text, CRLF, single- and multi-line tags, strings and back-quoted strings with newlines, multi-line comments, # comments, multi-line blocks); every (fault, container, prefix kind) enumerated, longer prefixes random. Oracle 1: the error starts with 'line N:' for the generator-counted N. Oracle 2 (metamorphic): for k in {1,2,7,100} and units LF / 'x'+LF, rendering unit*k + T gives the same error with every line-start 'line M:' increased by k. Non-trivial = a template that produced an error.", len(c15Faults), len(c15Containers), len(c15Benign)),
 		Assume:  []string{"the failing tag is written on one line (abstention: failing statements inside multi-line tags)", "nested 'line M:' of a partial's own text is not at a line start and must stay unchanged under shifting"},
 		Batches: batchesQT(8, 32),
 		Run:     c15Run,
